@@ -76,9 +76,15 @@ def mutate_once(a, D, leaf=scalars):
                                               (v if (chg and j == i % max(len(a), 1)) else vv)
                                               for j, (kk, vv) in enumerate(a.items())},
                       st.integers(0, 10), st.sampled_from(['x', '2', 'rev']), D, st.booleans()))
-    if isinstance(a, (int, float)) and not isinstance(a, bool) and a == a and abs(a) < 2 ** 53 and a == int(a):
+    if isinstance(a, bool):
+        # a boolean against the numbers Python calls equal to it (true / 1 / 1.0, false / 0 / 0.0): different values here
+        return st.one_of(st.just(a), leaf, st.just(int(a)), st.just(float(a)))
+    if isinstance(a, (int, float)) and a == a and abs(a) < 2 ** 53 and a == int(a):
         # the equal number of the other type (1 <-> 1.0): equal as a value, different as a node (size, spelling)
-        return st.one_of(st.just(a), leaf, st.just(float(a) if isinstance(a, int) else int(a)))
+        alts = [st.just(a), leaf, st.just(float(a) if isinstance(a, int) else int(a))]
+        if a in (0, 1):
+            alts.append(st.just(bool(a)))
+        return st.one_of(*alts)
     return st.one_of(st.just(a), leaf)
 
 
